@@ -77,7 +77,9 @@ SLICES = {"quick": 6, "thorough": 16}
 
 
 def _bufs(tier, g):
-    base = [g["sec"], 8192] if tier == "quick" else [g["sec"], 3 * g["sec"], 4096, 8192, 65536, 1 << 20]
+    base = [g["sec"], 8192] if tier == "quick" else [g["sec"], 3 * g["sec"], 8192]
+    if tier != "quick" and g["W"] <= 3:
+        base += [65536, 1 << 20]  # large buffers cost ~1 ms per request (every fill reads a whole buffer): 3-block windows only
     if g.get("bigbuf"):
         return [2 * g["bs"]]  # a buffer larger than a block: the aligned over-read leaves the last block
     return sorted({b for b in base if b % g["sec"] == 0})
